@@ -15,7 +15,12 @@ TOOL_LIMIT = "size-limited"
 
 class Driver:
     def __init__(self, driver, spec_text, workdir, tag):
+        workdir = os.path.abspath(workdir)
         os.makedirs(workdir, exist_ok=True)
+        # the library's "necessary" timers append to libtetrisched_performance.csv in the
+        # current directory: give every driver its own scratch directory as cwd
+        self.cwd = os.path.join(workdir, f"{tag}.cwd")
+        os.makedirs(self.cwd, exist_ok=True)
         self.path = os.path.join(workdir, f"{tag}.spec")
         with open(self.path, "w") as f:
             f.write(spec_text)
@@ -24,7 +29,7 @@ class Driver:
         env = dict(os.environ)
         env.update(ASAN_ENV)
         self.p = subprocess.Popen([driver, self.path], stdin=subprocess.PIPE, stdout=subprocess.PIPE, stderr=self.err, text=True,
-                                  env=env, bufsize=1)
+                                  env=env, bufsize=1, cwd=self.cwd)
         self.timed_out = False
 
     def _arm(self, seconds):
@@ -85,6 +90,8 @@ class Driver:
                 os.remove(pth)
             except OSError:
                 pass
+        import shutil
+        shutil.rmtree(self.cwd, ignore_errors=True)
         return rc, err
 
 
